@@ -444,3 +444,58 @@ def reset_global_state():
         _GLOBAL_STATE = GlobalState()
         return
     _GLOBAL_STATE.reset()
+
+
+class swapped:
+    """with swapped((real, stand_in), ...): every global name in every loaded rtflite module that is bound to the object
+    `real` is bound to `stand_in` for the duration of the block (identity-based, so it does not matter which module the
+    code under test imports the object into - a refactoring that moves a call into another module keeps being stubbed).
+    The real polars module is additionally replaced in sys.modules for function-local imports."""
+
+    def __init__(self, *pairs):
+        self.pairs = [(r, s) for r, s in pairs if r is not None]
+        self.saved = []
+        self.sysmods = []
+
+    def _enter(self):
+        import sys
+        import types
+        for mname, mod in list(sys.modules.items()):
+            if mod is None or not (mname == "rtflite" or mname.startswith("rtflite.")):
+                continue
+            d = vars(mod)
+            for attr in list(d):
+                val = d[attr]
+                for real, repl in self.pairs:
+                    if val is real:
+                        self.saved.append((mod, attr, val))
+                        setattr(mod, attr, repl)
+                        break
+        for real, repl in self.pairs:
+            if isinstance(real, types.ModuleType) and sys.modules.get(real.__name__) is real:
+                self.sysmods.append((real.__name__, real))
+                sys.modules[real.__name__] = repl
+
+    def _exit(self):
+        import sys
+        for mod, attr, val in reversed(self.saved):
+            setattr(mod, attr, val)
+        for name, real in self.sysmods:
+            sys.modules[name] = real
+        self.saved, self.sysmods = [], []
+
+    def __enter__(self):
+        if _NoTracing is not None:
+            with _NoTracing():
+                self._enter()
+        else:
+            self._enter()
+        return self
+
+    def __exit__(self, *a):
+        if _NoTracing is not None:
+            with _NoTracing():
+                self._exit()
+        else:
+            self._exit()
+        return False
